@@ -202,7 +202,14 @@ theorem dispCall_congr {g : Bool} (r : Nat) {s s' : State} (h : Rel g s s') :
   have hlen := h.heap_len
   rw [dispCall_eq, dispCall_eq, ← e2, ← e1, ← h.inp]
   cases htd : (s.obj r).toDisplace with
-  | some l => exact dispCore_congr r hm h
+  | some l =>
+    simp only []
+    split
+    · exact dispCore_congr r hm h
+    · obtain ⟨d, hd⟩ : ∃ d, s'.obj r = { s.obj r with displaced := d } := ⟨_, eObj_eq hm⟩
+      refine ⟨rfl, h.setObj r (by rw [hd]), ?_⟩
+      rw [obj_setObj', obj_setObj', hlen]
+      split <;> rfl
   | none =>
     simp only []
     split
@@ -894,7 +901,11 @@ theorem dispCall_shape (r : Nat) (s : State) :
       M.toDelete = (s.obj r).toDelete ∧ M.toAdd = (s.obj r).toAdd := by
   rw [dispCall_eq]
   cases htd : (s.obj r).toDisplace with
-  | some l => exact dispCore_shape r (s.obj r) s
+  | some l =>
+    simp only []
+    split
+    · exact dispCore_shape r (s.obj r) s
+    · exact ⟨_, _, rfl, rfl, rfl, rfl, rfl⟩
   | none =>
     simp only []
     split
